@@ -237,6 +237,8 @@ Definition init_pipeline (E : env) (w : world) (b : nat) (bk : backend) (fmt : N
 (* ---------- conditions ---------- *)
 (* SigmaCondition.parse: cached parse result, deep-copied, so the cache entry never changes *)
 Definition cache_parse (E : env) (w : world) (k : str) : world * outcome ptree :=
+  if mem c_pipe k then (w, SigmaErr E_Condition)      (* deprecated pipe syntax: rejected before the cache *)
+  else
   match lookup k (w_cache w) with
   | Some t => (set_cache w (w_cache w) (w_hits w + 1) (w_miss w), Ok t)
   | None =>
